@@ -100,7 +100,7 @@ def main():
     outp = os.path.join(HERE, "selftest", "results.json")
     os.makedirs(os.path.dirname(outp), exist_ok=True)
     prev = []
-    if os.path.exists(outp) and a.only:
+    if os.path.exists(outp):
         prev = [x for x in json.load(open(outp)) if x["name"] not in {r["name"] for r in res}]
     with open(outp, "w") as fh:
         json.dump(prev + res, fh, indent=1)
